@@ -102,8 +102,12 @@ pub fn probe_count() -> u64 {
     probe_exprs(3).len() as u64 * 2
 }
 
-/// probe index: 2*i = safe variant of expression i at width 3, 2*i+1 = unsafe variant; + 1000 = width 4
+/// probe index: 2*i = safe variant of expression i at width 3, 2*i+1 = unsafe variant; + 1000 = width 4;
+/// + 2000 = combinational form (one 1-bit state, bad0 only: used for pdr, whose completeness threshold
+/// must stay small)
 pub fn probe_spec(pi: u64) -> Option<SysSpec> {
+    let comb = pi >= 2000;
+    let pi = pi % 2000;
     let w = if pi >= 1000 { 4 } else { 3 };
     let i = ((pi % 1000) / 2) as usize;
     let unsafe_variant = pi % 2 == 1;
@@ -146,6 +150,12 @@ pub fn probe_spec(pi: u64) -> Option<SysSpec> {
         sysgen::StateSpec { ty: Ty::BV(1), init: Some(Sh::Lit(1, BigUint::from(0u32))), next: Some(Sh::Lit(1, BigUint::from(1u32))) },
     ];
     let ne = |x: Sh, y: Sh| Sh::Op(Op::Not, [0, 0], vec![Sh::Op(Op::Equal, [0, 0], vec![x, y])]);
+    if comb {
+        spec.name.push_str("_comb");
+        spec.states = vec![spec.states[3].clone()];
+        spec.bads.push(ne(f.clone(), table(a, b)));
+        return Some(spec);
+    }
     spec.bads.push(ne(f.clone(), table(a, b)));
     spec.bads.push(Sh::Op(Op::And, [0, 0], vec![st(3, Ty::BV(1)), ne(st(0, Ty::BV(wo)), table(st(1, Ty::BV(w)), st(2, Ty::BV(w))))]));
     Some(spec)
